@@ -19,7 +19,10 @@ def leaf(name):
     return sq.make_leaf({a, b}, payload=sql.Payload(tbl, columns_available={a: tbl.c.a, b: tbl.c.b}), name=name)
 
 
-r = leaf("t1").chain(leaf("t2")).sorted([R.SortTerm(R.ColumnExpression.reference(b))]).with_only_columns({a})
+try:
+    r = leaf("t1").chain(leaf("t2")).sorted([R.SortTerm(R.ColumnExpression.reference(b))]).with_only_columns({a})
+except R.RelationalAlgebraError as e:
+    not_reproduced(f"the factory refuses the request: {e}")
 print("accepted tree:", r)
 print("recorded sort needs:", set(r.sort.columns_required), " skip target columns:", set(r.skip_to.columns))
 try:
